@@ -143,3 +143,47 @@ if __name__ == "__main__":
         o, e, s = build_and_run({0: "pub mod c0 { use super::*; #[derive(o2o)] #[map(D)] pub struct S { pub a: V } pub struct D { pub a: V } "
                                     "pub fn run() { let d: D = S { a: mk(\"S.a\") }.into(); obs(0, \"OI\", false, \"clean\", \"ok\", 0, vec![(\"a\", d.a.sh())]); } }"})
         print("rt warm:", len(o), "observations", s)
+
+
+def check_modules(name, prelude, mods, deps="std", timeout=3000, rounds=4):
+    """`cargo check` of one generated library whose modules each hold one case (real proc-macro, rustc as judge).
+    mods: list of (module_name, source).  Returns {module_name: [messages]} for the modules rustc rejects (all others type-check)."""
+    d = core.HARNESS / name
+    (d / "src").mkdir(parents=True, exist_ok=True)
+    (d / ".cargo").mkdir(exist_ok=True)
+    dep = (f'o2o-macros = {{ path = "{core.REPO}/o2o-macros" }}\no2o = {{ path = "{core.REPO}", default-features = false }}\n' if deps == "no_std"
+           else f'o2o = {{ path = "{core.REPO}" }}\n')
+    (d / "Cargo.toml").write_text(f'[package]\nname = "{name}"\nversion = "0.0.0"\nedition = "2021"\n[workspace]\n[lib]\n[dependencies]\n{dep}'
+                                  '[profile.dev]\ndebug = false\nincremental = false\n')
+    (d / ".cargo" / "config.toml").write_text('[net]\noffline = true\n[build]\ntarget-dir = "target"\n')
+    if not (d / "Cargo.lock").exists():
+        shutil.copy(core.REPO / "Cargo.lock", d / "Cargo.lock")
+    failed = {}
+    live = list(mods)
+    for _ in range(rounds):
+        parts = [prelude]
+        line = prelude.count("\n") + 1
+        starts = []
+        for n, src in live:
+            text = f"pub mod {n} {{ use super::*;\n{src}\n}}"
+            starts.append((line + 1, n))
+            parts.append(text)
+            line += text.count("\n") + 1
+        (d / "src" / "lib.rs").write_text("\n".join(parts))
+        p = core.run("cargo check --offline --message-format=short 2>&1", cwd=d, timeout=timeout)
+        errs = defaultdict(list)
+        for l in p.stdout.splitlines():
+            m = re.match(r"^src/lib\.rs:(\d+):\d+: (error.*)", l)
+            if m:
+                ln, msg = int(m.group(1)), m.group(2)
+                cands = [(st, n) for st, n in starts if st <= ln]
+                if not cands:
+                    raise core.ToolError("rustc error in the generated prelude: " + l)
+                errs[max(cands)[1]].append(msg[:200])
+        if not errs:
+            if p.returncode != 0:
+                raise core.ToolError("cargo check failed without a mappable error:\n" + p.stdout[-2000:])
+            return failed
+        failed.update(errs)
+        live = [(n, s) for n, s in live if n not in failed]
+    raise core.ToolError("generated library still fails after exclusion rounds")
